@@ -91,6 +91,13 @@ CLAIMS["C17"] = dict(level="model_checking", tech="UAX #15 written in TLA+ (Norm
          "TraceNorm.tla with NFD/NFC of those operators (content, terminator, reported length, cleared slack, failure only when the documented room "
          "is missing), each result is normalized again, out-of-range values must be rejected without a fault, and the emitted fold lengths must match iswfc",
     ref="§3 C17", note="oracle tables from python3 unicodedata 14.0 (independent of the library's generated headers); quick: all mapped code points + 6000 sampled others, thorough: every assigned code point; compat forms (NFKD/NFKC) are not built in this configuration; fold mapping values are not compared with CaseFolding.txt; trusted: TLC, harness/hnorm.c")
+CLAIMS["C15"] = dict(level="model_checking", tech="TLA+ definition of the C library's two codesets and its restartable converters (Mbs.tla) with laws checked by TLC (GenMbs.tla) + every enumerated call replayed through the six _s functions next to the standard function + TLC trace validation (TraceMbs.tla)",
+    text="ASCII and the C library's UTF-8 (decode, encode), mbsrtowcs / wcsrtombs / wcrtomb and the _s contract (the standard result if it fits into dmax "
+         "with its terminator, otherwise an error with dest cleared; C11's len >= dmax constraint) are TLA+ operators; TLC enumerates all strings of a "
+         "few characters of every width with at most one ill-formed unit x len x dmax x locale x null dest and checks round trip, query-length and "
+         "chunked-conversion laws; each call runs in guarded memory in both slack builds, restartable calls are continued and their state re-used "
+         "after errors; TraceMbs.tla first requires the recorded standard-function result to equal the definition, then judges the _s result",
+    ref="§3 C15", note="locales C and C.UTF-8 of this glibc only (the property's quantifier); strings of <= 3 (quick) / 4 characters exhaustively, longer seeded; state-dependent encodings do not exist here; return codes on the size-query form are only required to be EOK or ESNOSPC (the tests pin ESNOSPC for dmax 0); trusted: TLC, harness/hmbs.c (records only)")
 
 NOT_YET = {
 }
